@@ -21,6 +21,8 @@ pub struct Profile {
     pub cmp_mode: u8,
     /// a key outside the pool is used once in `fresh` operations (12 by default; the live set keeps growing)
     pub fresh: u64,
+    /// largest batch of a bulk call (8 by default; above 8: 62% 0..8, 30% 9..200, 8% 201..bulk_max keys)
+    pub bulk_max: usize,
 }
 
 impl Profile {
@@ -35,6 +37,7 @@ impl Profile {
             key_mode: 0,
             cmp_mode: 1,
             fresh: 12,
+            bulk_max: 8,
         }
     }
 }
@@ -183,6 +186,43 @@ pub fn gen_cascade_infl(rng: &mut Rng, kt: Kt, n_ops: usize, lo: u64, hi: u64) -
     Seq { kt, params: Params::buckets(*rng.pick(&[1u64, 1, 2])), ops }
 }
 
+/// histories over groups of different keys with one and the same 64-bit hash (whatever the table size they share a
+/// bucket, and nothing that looks at the hash alone can tell them apart); lookups stand directly in front of updates
+pub fn gen_collide(rng: &mut Rng, kt: Kt, n_ops: usize) -> Seq {
+    let groups = crate::decoder::colliding_keys(rng.below(1000), rng.range(1, 3) as usize, rng.range(2, 3) as usize, *rng.pick(&[0usize, 0, 3, 8]));
+    let pool: Vec<B> = groups.into_iter().flatten().map(B::Hex).collect();
+    let mut ops = Vec::new();
+    for _ in 0..n_ops {
+        let k = rng.pick(&pool).clone();
+        let k2 = rng.pick(&pool).clone();
+        match rng.below(12) {
+            0..=3 => ops.push(Op::Put(k, B::Pat(rng.below(60) as usize, rng.below(100)))),
+            4 | 5 => ops.push(Op::Del(k)),
+            6 => {
+                ops.push(Op::Get(k));
+                ops.push(Op::Put(k2, B::Pat(rng.below(60) as usize, rng.below(100))));
+            }
+            7 => {
+                ops.push(Op::Inc(k));
+                ops.push(Op::Del(k2));
+            }
+            8 => {
+                ops.push(Op::Get(k));
+                ops.push(Op::Del(k2));
+            }
+            9 => ops.push(Op::Get(k)),
+            10 => ops.push(Op::Inc(k)),
+            _ => ops.push(Op::Len),
+        }
+    }
+    for k in &pool {
+        ops.push(Op::Get(k.clone()));
+    }
+    ops.push(Op::Len);
+    ops.push(Op::Iter(0));
+    Seq { kt, params: Params::buckets(*rng.pick(&[1u64, 8, 64, 1024])), ops }
+}
+
 pub fn gen_history(rng: &mut Rng, p: &Profile) -> Seq {
     let pool: Vec<B> = {
         let mut v: Vec<B> = Vec::new();
@@ -267,15 +307,34 @@ pub fn gen_history(rng: &mut Rng, p: &Profile) -> Seq {
             9 => Op::Reopen(if rng.chance(1, 2) { p.params } else { *rng.pick(&buckets_params) }),
             10 => Op::Cmp(p.cmp_mode),
             11 => {
-                let n = rng.below(9) as usize;
+                let size_class = if p.bulk_max > 8 { rng.below(100) } else { 0 };
+                let n = if size_class < 62 {
+                    rng.below(9) as usize
+                } else if size_class < 92 {
+                    rng.range(9, 200.min(p.bulk_max as u64)) as usize
+                } else {
+                    rng.range(201.min(p.bulk_max as u64), p.bulk_max as u64) as usize
+                };
                 let mut ks: Vec<B> = Vec::new();
-                for _ in 0..n {
-                    let k = key(rng);
-                    if !ks.iter().any(|x| x.bytes() == k.bytes()) {
+                let mut seen: std::collections::HashSet<Vec<u8>> = std::collections::HashSet::new();
+                for j in 0..n {
+                    // keys of the pool (mostly present) and, in larger batches, other keys in no particular order
+                    let k = if n <= 8 || rng.chance(1, 3) {
+                        key(rng)
+                    } else {
+                        let x = rng.next() % 1_000_003 + (j as u64 % 7) * 1_000_003;
+                        match p.kt {
+                            Kt::U64 | Kt::I64 => B::Hex(x.wrapping_mul(0x9E37_79B9_7F4A_7C15).to_le_bytes().to_vec()),
+                            Kt::Vu64 => B::Hex(vu64_encode(x << (rng.below(8) * 7))),
+                            Kt::Str | Kt::Bytes => B::Hex(format!("bk{:x}", x).into_bytes()),
+                        }
+                    };
+                    if seen.insert(k.bytes()) {
                         ks.push(k);
                     }
                 }
-                match rng.below(5) {
+                let which = if n > 200 { rng.below(2) } else { rng.below(5) };
+                match which {
                     0 => {
                         // bulk_get may repeat keys
                         let mut ks2 = ks.clone();
